@@ -20,7 +20,7 @@ NAMES = [["temp", "density", "Y(H2)"], ["a", "a", "b", "a"], ["x_velocity"], ["r
 
 
 def scenarios(tier, seed):
-    n = 4 if tier == "quick" else 12
+    n = 12 if tier == "quick" else 24
     return [{"kind": "metadata", "seed": seed * 1000 + 1700 + i, "ndims": 3 if i % 2 == 0 else 2, "names": NAMES[i % 5],
              "nlevels": [2, 1, 3, 4][i % 4], "nfiles": [2, 1, 3][i % 3], "layout": ["shuffled", "roundrobin"][i % 2],
              "geo_lo": [[1.0, 2.0, 3.0], [0., 0., 0.], [-0.75, 100.125, 1e-3]][i % 3],
